@@ -40,15 +40,16 @@ def _alarm(signum, frame):
 def native_check(text, seconds=20):
     """replay on the real code under a watchdog: not returning within `seconds` is reported as a hang"""
     import signal
-    old = signal.signal(signal.SIGALRM, _alarm)
-    signal.alarm(seconds)
+    # CPU time of this process (ITIMER_VIRTUAL), not wall-clock: a loaded machine must not look like a hang
+    old = signal.signal(signal.SIGVTALRM, _alarm)
+    signal.setitimer(signal.ITIMER_VIRTUAL, seconds)
     try:
         return _native_check(text)
     except _Hang:
-        return f"did not return within {seconds} s (hang)"
+        return f"did not return within {seconds} s of CPU time (hang)"
     finally:
-        signal.alarm(0)
-        signal.signal(signal.SIGALRM, old)
+        signal.setitimer(signal.ITIMER_VIRTUAL, 0)
+        signal.signal(signal.SIGVTALRM, old)
 
 
 def _native_check(text):
@@ -83,14 +84,15 @@ def replay(text):
     return {"input": text, "observed": r, "expected": "Library and str, no exception"}
 
 
-def replay_pumped(text):
-    """input-driven recursion: pump each character / each prefix and look for a RecursionError"""
+def replay_pumped(text, n=3000):
+    """input-driven recursion / super-linear running time: pump each character and each short segment n times and look for
+    an exception or a hang on the real code"""
     cands = []
     for i in range(len(text)):
-        cands.append(text[:i] + text[i] * 3000 + text[i + 1:])
+        cands.append(text[:i] + text[i] * n + text[i + 1:])
     for i in range(len(text)):
         for j in range(i + 2, min(len(text), i + 4) + 1):
-            cands.append(text[:i] + text[i:j] * 3000 + text[j:])
+            cands.append(text[:i] + text[i:j] * n + text[j:])
     for c in cands:
         r = native_check(c)
         if r is not None:
@@ -99,7 +101,7 @@ def replay_pumped(text):
     return None
 
 
-def task(parts, label):
+def task(parts, label, pump=0):
     eng = Engine()
     rec = Recorder(eng)
     text, pos, holes = sym_text(eng, parts)
@@ -124,6 +126,23 @@ def task(parts, label):
         rec.require(W, not ok, "library-and-text", rp)
         if W.maxrec[0] > MAXREC:
             rec.require(W, True, "input-driven-recursion", lambda m: replay_pumped(eng.model_str(m, text)))
+        if pump:
+            # size clause (10^3..10^5): up to `pump` distinct witnesses of this path, each pumped on the real code
+            import z3
+            block = []
+            for _ in range(pump):
+                sat, m = eng.query(W, z3.And(block) if block else True)
+                if not sat:
+                    break
+                inp = eng.model_str(m, text)
+                r = replay_pumped(inp, 2000)
+                rec.validated += 1
+                if r is not None:
+                    r["tag"] = "pumped-witness"
+                    rec.violations.append(r)
+                    break
+                block.append(z3.Not(b_z3(eng.I.models.eq_simple(text, inp))))
+            rec.witness("pumped", W)
         if nval < 6:
             ok2, m = eng.query(W, True)
             if ok2:
@@ -181,21 +200,25 @@ def main():
     chk = Check("C01", __doc__)
     LG, LT = (5, 2) if chk.tier == "quick" else (7, 4)
     LI = 4 if chk.tier == "quick" else 6
+    PUMP = 4 if chk.tier == "quick" else 16
     chk.bounds = {"alphabet": SIGMA_S, "pure garbage: every text of length": f"0..{LG}",
                   "templates": f"B1 + X + B2 / B1 + X with B1 in {sorted(BLOCKS)}, B2 in entry/string, X every text of length 1..{LT}",
                   "inside bodies": f"X of length 1..{LI} inside the body of @comment / @preamble / @string / a field value (bare, braced, quoted) / the key position",
                   "string names": "documents of 2-4 @string / entry blocks whose @string names and bare references are symbolic over {a, A}",
+                  "pumped witnesses": "every execution path of the texts of length 3: up to 4 (quick) / 16 (thorough) distinct solver witnesses per path, each replayed on the real code with every character and every segment of 2-4 characters repeated 2000 times, under a 20 s CPU-time watchdog",
                   "recursion bound": f"no repo function more than {MAXREC} times on the stack", "step limit per world": 2_000_000}
     chk.assumptions = ["alphabet as in C03 (one representative per class of the mark regex)",
                        "sizes 10^3..10^5 are not executed symbolically: the claim for them rests on the recursion-depth and step-limit obligations (any input-driven recursion found is confirmed by a pumped replay on the real code)",
                        "logging handlers, memory exhaustion and custom middleware are outside the claim"]
-    chk.expected_vacuity = ["failed-block-written"]
+    chk.expected_vacuity = ["failed-block-written", "pumped"]
     for L in range(LG, -1, -1):
         if L >= LG - 1 and L >= 2:
             for a in SIGMA_S:
                 chk.add_task(f"garbage-L{L}-{a!r}", task, parts=[("lit", a), ("sym", L - 1, SIGMA_S)], label=f"garbage-L{L}")
         else:
             chk.add_task(f"garbage-L{L}", task, parts=[("sym", L, SIGMA_S)], label=f"garbage-L{L}")
+    for a in SIGMA_S:
+        chk.add_task(f"pumped-L3-{a!r}", task, parts=[("lit", a), ("sym", 2, SIGMA_S)], label="pumped-L3", pump=PUMP)
     for n1, b1 in BLOCKS.items():
         for L in range(LT, 0, -1):
             chk.add_task(f"tmpl-{n1}+X{L}", task, parts=[("lit", b1), ("sym", L, SIGMA_S)], label=f"{n1}+X")
